@@ -734,6 +734,33 @@ pub fn generate(tier: &str, rng: &mut Rng) -> Vec<String> {
             out.push(case_of("creq", &[Ev::Data(frames_bytes(&fs))]));
         }
     }
+    // a BIG message whose body is cut off inside the payload (seed C17f: a "stream large messages" fast path that
+    // hands out the buffered part of an incomplete frame and then no longer knows that a frame is open - the
+    // truncated body ended cleanly instead of with "unexpected end of body"), also after a complete message, in
+    // chunks of the sizes HTTP stacks use; and the same bodies complete, so the fast path itself is exercised
+    for (i, &sz) in [8187usize, 8192, 8193, 9000, 20057, 70000].iter().enumerate() {
+        let lead = if i % 2 == 0 { vec![] } else { frame(0, &[1, 2, 3]) };
+        let big = frames_bytes(&[(0u8, vec![0x41u8; sz])]);
+        let full = [lead.clone(), big.clone(), tf0.clone()].concat();
+        let base = lead.len();
+        for cut in [base + 5 + 1, base + 8191, base + 8192, base + 8193, base + 5 + 8192, base + 5 + sz / 2, base + 5 + sz - 1] {
+            if cut >= base + 5 + sz {
+                continue;
+            }
+            let body = &full[..cut];
+            for step in [usize::MAX, 4096, 16384, 1000] {
+                if !thorough && (cut + step / 1000 + i) % 2 == 1 {
+                    continue;
+                }
+                let ck: Vec<Vec<u8>> = if step == usize::MAX { vec![body.to_vec()] } else { body.chunks(step).map(|c| c.to_vec()).collect() };
+                out.push(case_of(kind, &with_pendings(&ck, rng, 5)));
+            }
+        }
+        for step in [4096usize, 8192, 16384] {
+            let ck: Vec<Vec<u8>> = full.chunks(step).map(|c| c.to_vec()).collect();
+            out.push(case_of(kind, &with_pendings(&ck, rng, 5)));
+        }
+    }
     // several frames, more than 64 KiB together, in one chunk with the trailers frame
     {
         let fs = vec![(0u8, big_payload(rng, 30000)), (1u8, big_payload(rng, 30001)), (0u8, big_payload(rng, 10000)), (0u8, vec![])];
